@@ -175,6 +175,30 @@ def main():
                 return 'ok'
             sub.explore('xmd@out%d@dst%d@msg%d' % (outlen, dstlen, msglen), h, mode='bv')
         return task
+    def t_xmd_adjacent(outlen, dstlen, msglen):
+        def task(sub):
+            def h(ctx):
+                stubs.NARROW['on'] = False
+                m = new_machine(prog, ctx, gl, value_model=True)
+                install_hash_new(m)
+                m.unwind = 300
+                dst, msg, tail = sym_bytes('dst', dstlen), sym_bytes('msg', msglen), sym_bytes('tail', 8)
+                buf = list(dst) + list(msg) + list(tail)
+                bo = m.new_obj(None, tree=list(buf), label='caller buffer DST||msg||tail')
+                dst_s = X.Slice(bo, (), 0, dstlen, len(buf))
+                msg_s = X.Slice(bo, (), dstlen, msglen, len(buf) - dstlen)
+                out = m.new_byte_slice([0xEE] * outlen, 'out')
+                err = m.call(H2C + 'expandMessageXMD', [out, 5, dst_s, msg_s])
+                sub.note_machine(m)
+                spec = xmd_spec(msg, dst, outlen)
+                ctx.check(err is None and spec != 'err', 'no-error')
+                if err is None and spec != 'err':
+                    ctx.check(tm.eq(cat_bytes(m.slice_elems(out)), cat_bytes(spec), 8 * outlen), 'bv:uniform_bytes=RFC9380-5.3.1-of-the-arguments-as-passed')
+                now = m.slice_elems(X.Slice(bo, (), 0, len(buf), len(buf)))
+                ctx.check(tm.eq(cat_bytes(now), cat_bytes(buf), 8 * len(buf)), "bv:caller's-buffer-unchanged-including-spare-capacity")
+                return 'ok'
+            sub.explore('xmd-adjacent@out%d@dst%d@msg%d' % (outlen, dstlen, msglen), h, mode='bv')
+        return task
     if not only or 'xmd' in only:
         outs = [1, 31, 32, 33, 48, 64, 96, 97, 128] if not chk.thorough else [1, 31, 32, 33, 47, 48, 49, 64, 65, 95, 96, 97, 128, 255, 256, 1000, 8160]
         dsts = [1, 2, 16, 254, 255, 256, 257, 300] if not chk.thorough else [1, 2, 16, 43, 254, 255, 256, 257, 300, 1024]
@@ -186,8 +210,14 @@ def main():
                         tasks.append(('xmd', t_xmd(o, d, ml)))
         for (o, d, ml) in ((48, 0, 3), (0, 5, 3), (8161, 5, 0), (8160, 5, 0)):
             tasks.append(('xmd-err', t_xmd(o, d, ml)))
+        # the arguments as sub-slices of ONE caller buffer  out-of-band || DST || msg || tail : DST and msg have spare capacity that runs into
+        # the neighbouring bytes, so an append() to either argument lands in the caller's memory (pure function of the inputs, RFC bytes)
+        for (o, d, ml) in ((48, 16, 3), (96, 2, 1), (48, 255, 3), (48, 256, 3), (32, 1, 0), (97, 43, 64)) + (((48, 254, 65), (128, 300, 3), (48, 16, 0)) if chk.thorough else ()):
+            tasks.append(('xmd-adj', t_xmd_adjacent(o, d, ml)))
         chk.bounds.append('expand_message_xmd: output lengths %s, DST lengths %s (oversize-DST path included), message lengths %s; error cases empty DST, zero length, ell > 255; '
                           'all byte contents' % (outs, dsts, msgs))
+        chk.bounds.append('expand_message_xmd with DST and message passed as adjacent sub-slices of one caller buffer (spare capacity running into the neighbour): '
+                          'output = RFC bytes of the arguments as passed, whole buffer unchanged')
         chk.outside.append('message / DST / output lengths outside the listed instance sets')
 
     # ------------------------------------------------------------------ 2. SWU and the isogeny: data flow = RFC 9380 F.2 / E.1
